@@ -16,7 +16,9 @@ NONE == "none"
 \* causes of failure the property lists, by the statement that exhibits them; q is the qualification level of the name
 TableCauses == {"sel", "join", "subq", "cte", "ins", "inssel", "upd", "del", "droptable", "alter", "dropview", "describe",
                 "ctas", "createview", "clone", "merge", "truncate"}                       \* refer to a table / view that does not exist
-OnTCauses == {"nocol", "nofunc", "nvalues", "duptable", "dupview"}                      \* mis-shaped use of an existing object
+\* mis-shaped use of an existing object; duptable carries a COMMENT clause and other columns, the dupcolumn / renamecol forms
+\* are ALTER TABLE [IF EXISTS] t ADD COLUMN <existing> / RENAME COLUMN a TO <existing> (IF EXISTS is about the TABLE only)
+OnTCauses == {"nocol", "nofunc", "nvalues", "duptable", "dupview", "dupcolumn", "dupcolumn_ie", "renamecol_dup_ie"}
 SchemaCauses == {"selnosch", "createinnosch", "dropschema", "usesc", "dupschema"}      \* q in {2, 3}
 DbCauses == {"selnodb", "createinnodb", "usedb", "dropdb", "dupdb"}                    \* always fully specified
 OtherCauses == {"undefvar"}
@@ -31,6 +33,9 @@ InitSt == [made |-> FALSE, ctx |-> "full", rows |-> 0, tx |-> FALSE, pend |-> 0,
 \*  ctx: conn.database, conn.schema; var: "set" | "unset"
 Obs(res, st2) == [res |-> res, ss |-> st2.ss, mine |-> IF st2.open THEN st2.rows + st2.pend ELSE -1, committed |-> st2.rows,
                   objs |-> <<"T", "V">>,
+                  \* T as declared: its comment, its columns, the declared length of its text column - a failed statement
+                  \* that names T (CREATE TABLE t ... COMMENT, ALTER TABLE t ADD COLUMN <existing>) leaves them as they were
+                  meta |-> <<"c0", "A,B", "VARCHAR(7)">>,
                   ctx |-> CASE st2.ctx = "full" -> <<"D1", "S1">> [] st2.ctx = "nosc" -> <<"D1", NONE>> [] OTHER -> <<NONE, NONE>>,
                   var |-> IF ~st2.open THEN "-" ELSE IF st2.var THEN "set" ELSE "unset"]
 
